@@ -76,5 +76,22 @@ Theorem C05_solve_strategies : forall (T : Type) (K : ops T), lawful_order K ->
           end
   | PR => None
   end.
-Proof. intros T K L. exact (final_strategies_of_solve K L). Qed.
+Proof. intros T K L. exact (final_strategies_of_solve K (lawful_scans_are_filters K L)). Qed.
 Print Assumptions C05_solve_strategies.
+
+(** the same end-to-end statement for binary64, the arithmetic the implementation uses (see Props/C04.v) *)
+From CR Require Import Proofs.LawsOn Proofs.FloatLaws Props.C04F.
+Theorem C05_solve_strategies_binary64 : forall fuel (g : game (T:=PrimFloat.float)) prune r i,
+  wf_game fops g -> solve_fuel fops fuel g prune = Ok r -> (i < nstates g)%nat ->
+  nth i (r_final r) None =
+  let vals := vals_of fops (r_rewards r) (nth i (r_pruned r) []) in
+  match nth i (g_players g) PR with
+  | P1 => Some (argmax_list fops (zero fops) vals)
+  | P2 => match vals with
+          | [] => Some []
+          | (_, v0) :: _ => Some (argmin_list fops v0 vals)
+          end
+  | PR => None
+  end.
+Proof. exact (final_strategies_of_solve fops (fun m0 l => C04F_scan_is_argmax_binary64_all m0 l)). Qed.
+Print Assumptions C05_solve_strategies_binary64.
